@@ -24,9 +24,10 @@ TYPES = {
     "tuple": "Tuple[int, str]", "nt": "NT", "td": "TDict", "timedelta": "datetime.timedelta", "list_bytes": "List[bytes]",
     "dict_uuid": "Dict[str, UUID]", "plain": "Plain", "gen_date": "Gen[datetime.date]", "fset": "FrozenSet[int]",
     "opt_date": "Optional[datetime.date]", "union": "Union[int, str]", "path": "PurePosixPath", "ip": "IPv4Address",
+    "selfref": "SelfRef", "optd": "OptD",
 }
 QUICK = ["int", "str", "date", "datetime", "uuid", "bytes", "opt_int", "list_date", "dict_str_int", "mix", "tuple", "td",
-         "list_bytes", "gen_date", "opt_date", "float"]
+         "list_bytes", "gen_date", "opt_date", "float", "selfref"]
 
 
 def harnesses(tier, seed):
@@ -34,8 +35,10 @@ def harnesses(tier, seed):
     names = QUICK if tier == "quick" else list(TYPES)
     for fmt in P.FORMATS:
         for n in names:
-            for variant in ("mixin", "codec"):
+            for variant in ("mixin", "codec", "mixin_lazy"):
                 if tier == "quick" and variant == "codec" and n not in ("date", "bytes", "mix", "list_date", "opt_int", "uuid"):
+                    continue
+                if variant == "mixin_lazy" and n not in ("date", "bytes", "mix", "opt_int", "selfref", "list_bytes"):
                     continue
                 s = Schema("%s_%s" % (fmt, n), TYPES[n], COMMON_PRELUDE)
                 try:
